@@ -12,6 +12,7 @@ callable_raises, nested_build.
 from __future__ import annotations
 
 import copy
+import json
 import os
 
 import fiddle as fdl
@@ -28,6 +29,7 @@ from machines.build import BUILD_STUBS
 FIDDLE_SRC = os.path.join(os.path.dirname(os.path.abspath(fdl.__file__)), '_src') + os.sep
 OPCODE_FILES = ('history.py', 'building.py', 'signatures.py',
                 'reraised_exception.py')
+sched_lib.hot_lines(FIDDLE_SRC)   # (scanned once, in the lane process)
 NAMES = {'n0': ['x', 'y', 'z'], 'n1': ['y'], 'N2': ['x', 'k'],
          'N3': ['x', 'y'], 'n4': [], 'n5': ['x'], 'n6': ['x', 'y', 'k']}
 POSITIONAL_FNS = ('n1', 'n4')
@@ -39,11 +41,11 @@ OPCODE_OK = False
 # --------------------------------------------------------------------------
 # generation
 # --------------------------------------------------------------------------
-def gen_thread(rng, t, behav, max_ops, force_raise=False):
+def gen_thread(rng, t, behav, max_ops, force_raise=False, pre_fns=()):
   base = (t + 1) * 1000
   counter = [0]
   tok = [base * 10]
-  fn_of = []     # fn name per live config index (approximate, for op choice)
+  fn_of = list(pre_fns)   # fn name per live config index (approximate, for op choice)
 
   def token():
     tok[0] += 1
@@ -161,24 +163,66 @@ def gen_case(world, tier, prop):
   max_ops = 12 if tier == 'thorough' else 9
   behav = {}
   force = sw.random() < 0.3
-  threads = [gen_thread(rng, t, behav, max_ops, force) for t in range(nthreads)]
+  trng = world.stream('templates')
+  templates = []
+  if trng.random() < 0.35:
+    # configurations made once, up front; every thread gets its OWN deep copy
+    # before the threads start (distinct configurations that still share
+    # whatever a copy does not duplicate)
+    for k in range(trng.randint(1, 2)):
+      d = gen_thread(trng, 7 + k, behav, 2)[0]
+      if trng.random() < 0.3:
+        d['btype'] = 'Partial'
+      if trng.random() < 0.5 and d['fn'] in ('n0', 'N2', 'n5', 'n6'):
+        d['kwargs']['x'] = {'list': [90000 + 100 * k + j for j in range(trng.randint(3, 7))]}
+      templates.append(d)
+  pre = [d['fn'] for d in templates]
+  threads = [gen_thread(rng, t, behav, max_ops, force, pre_fns=pre) for t in range(nthreads)]
   r = sw.random()
-  if r < 0.5:
+  if r < 0.3:
     policy = {'kind': 'random', 'p': sw.choice([0.02, 0.1, 0.3])}
+  elif r < 0.55:
+    policy = {'kind': 'hot', 'p': sw.choice([0.003, 0.01, 0.03]),
+              'p_hot': sw.choice([0.05, 0.15, 0.4]),
+              'hold': sw.choice([0, 300, 3000]),
+              'novel': sw.choice([0, 1, 3])}
   elif r < 0.8:
     policy = {'kind': 'pct', 'd': sw.randint(1, 3), 'horizon': sw.choice([300, 1500, 5000])}
   else:
     policy = {'kind': 'pause', 'q': 0.6}
   case = {'threads': threads, 'behav': behav, 'policy': policy,
           'opcode': OPCODE_OK and sw.random() < 0.33, 'sched_seed': world.seed}
-  if sw.random() < 0.3:
-    # every thread makes and drops configurations of ONE callable that no
-    # lasting configuration uses
-    fn = sw.choice(['camel_node', 'CamelNode', 'n7'])
+  if templates:
+    case['templates'] = templates
+  if trng.random() < 0.2 and nthreads >= 2:
+    # one thread registers a traverser for a container type while another is
+    # already meeting values of that type (as opaque leaves)
+    a, b = trng.sample(range(nthreads), 2)
+    for j in range(trng.randint(1, 3)):
+      threads[a].insert(trng.randint(1, len(threads[a])),
+                        {'op': 'late_touch', 'uid': 700000 + 10 * j})
+    threads[b].insert(trng.randint(1, len(threads[b])),
+                      {'op': 'register_late', 'uid': 710000})
+    threads[b].append({'op': 'register_late', 'uid': 710010})
+  if trng.random() < 0.4:
+    # sequences of growing length (of small containers, so that every position
+    # has a path of its own): each thread meets longer lists than any before it
+    # -- staggered, so that one thread is still at a short one while another is
+    # past a long one -- and a still longer one at the very end
     for t, ops in enumerate(threads):
-      for j in range(sw.randint(1, 3)):
-        ops.insert(sw.randint(1, len(ops)),
-                   {'op': 'temp', 'fn': fn, 'uid': 900000 + 10 * t + j})
+      u_ = 800000 + 1000 * t
+      sizes = sorted(trng.sample(range(2, 11), trng.randint(2, 3)), reverse=(t % 2 == 1))
+      for j, n_ in enumerate(sizes):
+        at = trng.randint(1, len(ops))
+        ops.insert(at, {'op': 'new', 'fn': 'n0', 'btype': 'Config', 'args': [],
+                        'kwargs': {'uid': u_ + 100 * j,
+                                   'x': {'list': [{'list': [u_ + 100 * j + i]} for i in range(n_)]},
+                                   'y': {'tuple': [{'list': [u_ + 100 * j + 50 + i]} for i in range(n_ + 1)]}}})
+        ops.insert(at + 1, {'op': trng.choice(['build', 'json', 'deepcopy']), 'c': -1})
+      ops.append({'op': 'new', 'fn': 'n0', 'btype': 'Config', 'args': [],
+                  'kwargs': {'uid': u_ + 900, 'x': {'list': [{'list': [u_ + 900 + i]} for i in range(14)]}}})
+      ops.append({'op': 'json', 'c': -1})
+      ops.append({'op': 'build', 'c': -1})
   return case
 
 
@@ -236,6 +280,93 @@ class Run:
     return body
 
 
+def alone_reference(case):
+  """{'obs': [per-thread observation lists], 'nested': {tid: outcomes}} of every
+  thread's program run alone, one after the other, in a forked child."""
+  import json as _json
+  r, w = os.pipe()
+  pid = os.fork()
+  if pid == 0:
+    code = 0
+    try:
+      os.close(r)
+      R = Run(case)
+      n = len(case['threads'])
+      out = {'obs': [], 'nested': {}}
+      for t in range(n):
+        R.alone_tid = t
+        R.nested_outcomes[t] = []
+        env = prog.Env(t, R.fns, sched=None, exc_class=R.exc_classes[t])
+        adopt_templates(case, [env], None)
+        try:
+          for op in case['threads'][t]:
+            prog.step(env, op)
+        finally:
+          prog.finish(env)
+        out['obs'].append(env.obs)
+        out['nested'][str(t)] = R.nested_outcomes[t]
+      out['post'] = post_observation(case, R)
+      data = _json.dumps(out, default=repr).encode()
+      with os.fdopen(w, 'wb') as f:
+        f.write(data)
+    except BaseException:  # pylint: disable=broad-except
+      import traceback
+      try:
+        os.write(w, _json.dumps({'error': traceback.format_exc()}).encode())
+      except OSError:
+        pass
+      code = 3
+    finally:
+      os._exit(code)
+  os.close(w)
+  chunks = []
+  with os.fdopen(r, 'rb') as f:
+    while True:
+      b = f.read(1 << 16)
+      if not b:
+        break
+      chunks.append(b)
+  os.waitpid(pid, 0)
+  out = _json.loads(b''.join(chunks) or b'{}')
+  if 'obs' not in out:
+    raise RuntimeError('alone reference failed: ' + str(out.get('error'))[-1500:])
+  return out
+
+
+def post_observation(case, R):
+  """What a fresh operation observes once every program has finished (state
+  that only a LATER operation trips over is caught here)."""
+  if not any(op['op'] == 'register_late' for ops in case['threads'] for op in ops):
+    return None
+  env = prog.Env(0, R.fns, sched=None, exc_class=R.exc_classes[0])
+  R.alone_tid = 0
+  try:
+    prog.step(env, {'op': 'late_touch_observed', 'uid': 720000})
+  finally:
+    R.alone_tid = None
+  return env.obs[-1]['out']
+
+
+def adopt_templates(case, envs, res):
+  """Makes the case's template configurations afresh (nothing has looked at
+  them) and gives each env its own deep copy, in the calling thread."""
+  import copy as _copy
+  if not case.get('templates'):
+    return
+  mk = prog.M.Maker('impl', envs[0].fns)
+  for d in case['templates']:
+    cls = {'Config': fdl.Config, 'Partial': fdl.Partial}[d.get('btype', 'Config')]
+    tpl = cls(envs[0].fns[d['fn']], *[mk(a) for a in d.get('args', [])],
+              **{n: mk(v) for n, v in d.get('kwargs', {}).items()})
+    for env in envs:
+      env.cfgs.append(_copy.deepcopy(tpl))
+  for env in envs:
+    env.new_entries()   # (entries inherited from the template are not this thread's;
+    del env.keep_entries[:]   # the configs keep them alive, so ids stay unique)
+  if res is not None:
+    res['probes']['template_copies_per_thread'] = len(case['templates'])
+
+
 def V(clause, msg, **extra):
   fp = {'property': 'C19', 'clause': clause}
   fp.update(extra)
@@ -245,8 +376,13 @@ def V(clause, msg, **extra):
 def run(case):
   res = {'violations': [], 'faults': {}, 'probes': {}, 'steps': 0,
          'state_hashes': [], 'nontrivial': False}
-  R = Run(case)
   n = len(case['threads'])
+  # The reference (each program alone) runs first, in a forked child: whatever
+  # it warms up or leaves behind in process-wide state dies with the child, so
+  # the interleaved run below starts cold AND the reference cannot inherit
+  # damage that the interleaved run did to process-wide state.
+  ref = alone_reference(case)
+  R = Run(case)
   rng = World(case['sched_seed']).stream('sched')
   policy = sched_lib.make_policy(case['policy'], rng, n)
   sc = sched_lib.Sched(policy, [FIDDLE_SRC],
@@ -255,6 +391,7 @@ def run(case):
   R.sched = sc
   envs = [prog.Env(t, R.fns, sched=sc, exc_class=R.exc_classes[t])
           for t in range(n)]
+  adopt_templates(case, envs, res)
   try:
     sc.run([R.thread_fn(envs[t], case['threads'][t]) for t in range(n)])
   except sched_lib.SimDeadlock as e:
@@ -282,23 +419,27 @@ def run(case):
     res['faults']['lock_wait'] = sc.lock_waits
   if case.get('opcode'):
     res['probes']['opcode_granularity_runs'] = 1
-  # ---- reference: each program alone ------------------------------------
+  # ---- reference: each program alone (computed BEFORE, see alone_reference) --
+  alone_obs, alone_nested = ref['obs'], ref['nested']
   R.sched = None
-  alone = []
+
+  class _Alone:     # same shape the comparisons below expect
+    def __init__(self, obs):
+      self.obs = obs
+  post = json.loads(json.dumps(post_observation(case, R), default=repr))
+  if post != ref.get('post'):
+    res['violations'].append(V(
+        'later-operation-differs',
+        'an operation performed after all threads had finished differs from the '
+        'same operation after the programs ran one by one: '
+        + '; '.join(C.diff(ref.get('post'), post))))
+  alone = [_Alone(o) for o in alone_obs]
   for t in range(n):
-    R.alone_tid = t
-    R.nested_outcomes[t] = []
-    env = prog.Env(t, R.fns, sched=None, exc_class=R.exc_classes[t])
-    try:
-      for op in case['threads'][t]:
-        prog.step(env, op)
-    finally:
-      prog.finish(env)
-    alone.append(env)
-  R.alone_tid = None
+    R.nested_outcomes[t] = alone_nested[str(t)]
   viols = res['violations']
   for t in range(n):
-    a, b = alone[t].obs, envs[t].obs
+    a = alone[t].obs
+    b = json.loads(json.dumps(envs[t].obs, default=repr))   # (as the reference travelled)
     for i, (x, y) in enumerate(zip(a, b)):
       if x != y:
         opk = x['op']
